@@ -4,6 +4,7 @@ import (
 	"context"
 	"errors"
 	"sync"
+	"time"
 
 	"github.com/avos-io/goat/gen/goatorepo"
 	"google.golang.org/protobuf/proto"
@@ -202,13 +203,44 @@ type Script struct {
 	readErr  error
 	wFail    chan struct{}
 	wErr     error
+	reads    int
+	readCond *sync.Cond
+}
+
+// WaitReads blocks until Read has been entered at least n times (the library came back for more
+// input, so everything delivered before has been processed by its read loop).
+func (s *Script) WaitReads(n int, timeout time.Duration) bool {
+	stop := time.AfterFunc(timeout, func() { s.mu.Lock(); s.readCond.Broadcast(); s.mu.Unlock() })
+	defer stop.Stop()
+	deadline := time.Now().Add(timeout)
+	s.mu.Lock()
+	defer s.mu.Unlock()
+	for s.reads < n {
+		if time.Now().After(deadline) {
+			return false
+		}
+		s.readCond.Wait()
+	}
+	return true
+}
+
+func (s *Script) Reads() int {
+	s.mu.Lock()
+	defer s.mu.Unlock()
+	return s.reads
 }
 
 func NewScript(cap int) *Script {
-	return &Script{In: make(chan *Rpc, cap), Out: make(chan *Rpc, cap), readFail: make(chan struct{}), wFail: make(chan struct{})}
+	s := &Script{In: make(chan *Rpc, cap), Out: make(chan *Rpc, cap), readFail: make(chan struct{}), wFail: make(chan struct{})}
+	s.readCond = sync.NewCond(&s.mu)
+	return s
 }
 
 func (s *Script) Read(ctx context.Context) (*Rpc, error) {
+	s.mu.Lock()
+	s.reads++
+	s.readCond.Broadcast()
+	s.mu.Unlock()
 	select {
 	case <-s.readFail:
 		return nil, s.readErr
